@@ -574,7 +574,10 @@ bool i_mep::save_impl(std::ostream &out) const
     out << g.sym->opcode();
 
     if (g.sym->terminal() && terminal::cast(g.sym)->parametric())
-      out << ' ' << g.par;
+    {
+      out << ' ';
+      save_float_to_stream(out, g.par);
+    }
 
     const auto arity(g.sym->arity());
     for (auto i(decltype(arity){0}); i < arity; ++i)
